@@ -187,6 +187,12 @@ def maxS (p : Part α N K S) (n : Fin N) (k : Fin K) : α :=
 def belowThr [LT α] [DecidableLT α] (thr : α) (p : Part α N K S) : Bool :=
   (List.finRange N).any fun n => (List.finRange K).any fun k => decide (maxS p n k < thr)
 
+/-- `TreeLikelihoodModel._underflow` (after fix F21): `any(isinf(log_p))` or, for SOME site, the max over
+  (category, state) of the root partial is below `threshold` — a test on the WORST site pattern.
+  `TTGen/C03_Underflow.lean` (regenerated from the source) records that the code has this structure. -/
+def underflowCoded [LT α] [DecidableLT α] (isInf : α → Bool) (thr v : α) (root : Part α N K S) : Bool :=
+  isInf v || (List.finRange N).any fun n => decide (maxKS root n < thr)
+
 end choices
 
 section coded
